@@ -18,8 +18,11 @@ M = 'geom3::mesh::Mesh'
 
 def run(cx):
     # 'sectioning commutes with rigid motion of mesh and plane together' needs the plane to move as a plane (rule shared with C03)
-    from rules.C03 import plane_transform_rule
+    from rules.C03 import plane_transform_rule, mesh_transform_rule
     plane_transform_rule(cx)
+    mesh_transform_rule(cx)
+    from rules.C12 import create_box_rule
+    create_box_rule(cx)
     b = cx.fn(f'{M}::section')
     if b:
         calls = b.calls('TriMesh::intersection_with_local_plane')
